@@ -1071,3 +1071,38 @@ func (c *Ctx) include(as, from string, rules []string, why string, floor int) {
 	n := c.R.Import(sub, wanted, as, why, open)
 	c.R.Floor(as, "obligations shared with "+from+" "+strings.Join(rules, ","), n, floor)
 }
+
+// stopsOnError: the function returns the result of call as soon as it is non-nil - `if err := call(); err != nil
+// { return err }` in a loop, or `for err == nil { err = call() }; return err` (the test is then made on the merge of
+// the call's result with a value that is nil when the loop is entered).
+func (c *Ctx) stopsOnError(call *ssa.Call) bool {
+	cands := []ssa.Value{call}
+	for _, r := range core.Referrers(call) {
+		if ph, ok := r.(*ssa.Phi); ok {
+			cands = append(cands, ph)
+		}
+	}
+	for _, v := range cands {
+		for _, e := range nilEdges(v, false) {
+			blk := e.to()
+			r, isRet := blk.Instrs[len(blk.Instrs)-1].(*ssa.Return)
+			if !isRet {
+				continue
+			}
+			has, only := false, true
+			for _, root := range core.ErrRoots(errOperand(r)) {
+				switch {
+				case root == ssa.Value(call):
+					has = true
+				case c.Err().Classify(root, e.from).OnlyNil():
+				default:
+					only = false
+				}
+			}
+			if has && only {
+				return true
+			}
+		}
+	}
+	return false
+}
